@@ -30,7 +30,10 @@ func init() {
 func runC09(c *core.Ctx) {
 	c.Rule("C09.less", "A8: sortedStates.Less is irreflexive and asymmetric over all orderings of (Level, ID) of two events and equals the documented order: higher level first, ties by ascending ID")
 	c.Rule("C09.resort", "A1/A2: Topic.updateEvent re-sorts iff the id is new or its level changed, decides `changed` from the stored level before overwriting it, copies the previous state before the overwrite and returns it with found=true only when one existed")
-	c.Rule("C09.collect", "A1/A3: Topic.collect passes updateEvent's previous state into the event iff one existed, before handleEvent, and handles the same event")
+	c.Rule("C09.collect", "A1/A3: Topic.collect passes what updateEvent returns as previous state (the zero state for an ID that is new on this topic) into the event on every path, before handleEvent, and handles the same event")
+	c.Rule("C09.order", "A5 (must-hold over go/cfg): Topic.collect holds one mutex of the topic from updateEvent until handleEvent has queued the event: state order = delivery order for concurrent publishers")
+	c.Rule("C09.swap", "A3: Topics.ReplaceHandler changes the handler list of the topic in one critical section of Topic.mu")
+	c.Rule("C09.dao", "A3 (sibling agreement): the alert service's DAO write methods forward to the IndexedStore operation of the same name (Create→Create, never Put)")
 	c.Rule("C09.fanout", "A2: Topic.handleEvent and publishHandler.Handle visit every handler/topic: no return or break inside the loop, each iteration delivers the event (publish: with Topic set to that iteration's topic)")
 	c.Rule("C09.boundary", "A1: Topic.EventStates(minLevel) stops exactly at Level < minLevel; Topics.TopicState keeps a topic iff level >= minLevel")
 	c.Rule("C09.restore", "A2: Topic.restoreEventStatesNoCopy replaces both events and sorted by fresh allocations on every path, fills both for every restored state and sorts afterwards")
@@ -50,6 +53,9 @@ func runC09(c *core.Ctx) {
 	c09Less(c, pkg, "C09.less", "alert", "sortedStates", []cmpKey{{"Level", true}, {"ID", false}})
 	c09Resort(c, pkg)
 	c09Collect(c, pkg)
+	c09CollectOrder(c, pkg)
+	c09Swap(c, pkg)
+	c09Dao(c)
 	c09Fanout(c, pkg)
 	c09Boundary(c, pkg)
 	c09Restore(c, pkg, "C09.restore")
@@ -59,7 +65,7 @@ func runC09(c *core.Ctx) {
 	c09Close(c, pkg)
 	c09Buffer(c, pkg)
 	ruleGuardedBy(c, "C09.locks", pkg, guardSpec{typ: "Topic", mu: "mu", fields: map[string]bool{"events": true, "sorted": true, "handlers": true},
-		requires: map[string]bool{}, exempt: map[string]string{"newTopic": "constructor"}})
+		requires: map[string]bool{"addHandlerLocked": true, "removeHandlerLocked": true}, exempt: map[string]string{"newTopic": "constructor"}})
 	ruleGuardedBy(c, "C09.locks", pkg, guardSpec{typ: "Topics", mu: "mu", fields: map[string]bool{"topics": true},
 		requires: map[string]bool{"ensureTopic": true}, exempt: map[string]string{"NewTopics": "constructor"}})
 	n := ruleMustHold(c, "C09.lockflow", pkg, holdSpec{Typ: "Topic", Mu: "mu", Fields: map[string]bool{"events": true, "sorted": true, "handlers": true},
@@ -362,12 +368,9 @@ func c09Collect(c *core.Ctx, pkg *packages.Package) {
 			}
 			return strings.Join(s, ",")
 		},
-		Expect: func(a map[string]bool) string {
-			if a["hadprev"] {
-				return "update,setprev,handle"
-			}
-			return "update,handle"
-		}})
+		// F89: an event republished from another topic carries that topic's previous state; what this topic knew
+		// (nothing = the zero state) replaces it whether or not the ID existed here
+		Expect: func(a map[string]bool) string { return "update,setprev,handle" }})
 }
 
 // rules whose loops may be left by returning an error
